@@ -25,6 +25,7 @@ pub enum Input<'a> {
 bitflags! {
     #[derive(Debug)]
     #[cfg_attr(feature = "verif-hooks", derive(Clone))]
+    #[cfg_attr(feature = "verif-hooks", derive(Hash))]
     struct Flags: u8 {
         const CSI_STARTED = 1;
     }
@@ -32,6 +33,7 @@ bitflags! {
 
 #[derive(Debug)]
 #[cfg_attr(feature = "verif-hooks", derive(Clone))]
+#[cfg_attr(feature = "verif-hooks", derive(Hash))]
 pub struct InputGenerator {
     flags: Flags,
     last_byte: u8,
@@ -111,6 +113,17 @@ impl InputGenerator {
     /// (flag bits, last_byte, utf8 accumulator state)
     pub fn __verif_state(&self) -> (u8, u8, ([u8; 4], u8, u8)) {
         (self.flags.bits(), self.last_byte, self.utf8.__verif_state())
+    }
+
+    /// Hash over every field of the struct after zeroing what cannot influence any future call
+    /// (the previous byte matters only when it is ESC, CR or LF; see `Utf8Accum::__verif_canonicalize`)
+    pub fn __verif_canonical_hash(&self) -> u64 {
+        let mut c = self.clone();
+        if c.last_byte != codes::ESCAPE && c.last_byte != codes::CARRIAGE_RETURN && c.last_byte != codes::LINE_FEED {
+            c.last_byte = 0;
+        }
+        c.utf8.__verif_canonicalize();
+        crate::editor::__verif_hash_of(&c)
     }
 }
 
